@@ -827,6 +827,9 @@ var aliases = map[string][2]string{
 	"decUnmarshal": {"dec.unmarshal", "Dec"}, "decUnmarshalOk": {"dec.unmarshalok", "Bool"}, "decZero": {"dec.zero", "Dec"},
 	"jnumInt64Ok": {"jnum.int64ok", "Bool"}, "jnumInt64": {"jnum.int64", "Int"}, "jnumFloat64Ok": {"jnum.float64ok", "Bool"},
 	"whole": {"gs.whole", "Bool"}, "subwindow": {"gs.subwindow", "Bool"}, "runesOf": {"gs.units", "Int"},
+	"errorsIsForeign": {"errors.isf", "Bool"}, "rdSrc": {"rd.src", "Int"}, "decSrc": {"dec.src", "Int"},
+	"jsonPrefixOk": {"json.prefixok", "Bool"}, "jsonRestBlank": {"json.restblank", "Bool"}, "jsonText": {"json.text", "Bool"},
+	"jsonIsString": {"json.isstring", "Bool"}, "jsonIsNumber": {"json.isnumber", "Bool"},
 	"valWF": {"val.wf", "Bool"}, "kindLo": {"kind.lo", "Int"}, "kindHi": {"kind.hi", "Int"},
 }
 
